@@ -41,7 +41,7 @@ COMPONENTS = {
     "real": ["MPSBackend.run with n_trajectories=k", "NoisyMPSBackendImpl (effective Hamiltonian, jump search, jump selection)", "emu_base.jump_lindblad_operators", "TDVP numerics", "pulser sampling"],
     "stubbed": ["RNG seeding (random / numpy / torch)", "clock", "uuid", "reference: dense Lindblad model (scipy expm) with collapse operators from Pulser's definitions"],
 }
-PROBES = ["trajectory_with_jump", "relaxation", "dephasing", "depolarizing", "eff_noise_2x2", "eff_noise_3x3_leakage", "two_channels", "case_completed_all_chunks"]
+PROBES = ["trajectory_with_jump", "relaxation", "dephasing", "depolarizing", "eff_noise_2x2", "eff_noise_3x3_leakage", "two_channels", "noise_model_from_device", "case_completed_all_chunks"]
 ASSUMPTIONS = [
     f"statistical acceptance: |mean - model| <= sqrt(2 V ln(4/d)/K) + 7 ln(4/d)/(3(K-1)) + {BIAS} with d = {ALPHA_FAMILY}/{MAX_COMPARISONS:g} per comparison (Maurer-Pontil empirical Bernstein bound for values in [0,1]); family-wise false-alarm probability <= {ALPHA_FAMILY} per invocation for any VERIF_SEED, given the bias allowance",
     "bias allowance 1e-2 covers the solver's deterministic error (TDVP at precision 1e-6, jump time located to 1 ns); the largest |mean - model| seen is reported as calibration data",
@@ -127,7 +127,15 @@ def gen_case(seed: int, case_id: int, tier: str) -> dict:
     times = sorted({1.0} | {round(j / (m + 1) * nsteps) / nsteps for j in range(1, m + 1)})
     obs = [{"kind": "occupation", "times": times}, {"kind": "correlation_matrix", "times": times}, {"kind": "energy_variance", "times": [1.0]}]
     cfg = {"backend": "mps", "dt": dt, "observables": obs, "default_times": None, "precision": 1e-6, "max_bond_dim": 64, "optimize": False, "solver": "tdvp", "noise": noise}
-    return {"scn": scn, "cfg": cfg, "T": float(T), "n": n, "kind": kind, "times": times, "d": 3 if noise.get("with_leakage") else 2, "case_id": case_id}
+    # how the noise model reaches the emulator: through the config, or through the device's own noise model with
+    # prefer_device_noise_model=True - the config then carries no noise model or a decoy that must be ignored
+    delivery = "config"
+    if case_id % 3 == 1 and kind != "relax+spam":
+        delivery = tape.choice(["device", "device+decoy"], "delivery")
+        scn["device_noise"] = noise
+        cfg["prefer_device_noise"] = True
+        cfg["noise"] = None if delivery == "device" else {"depolarizing_rate": round(4.0 * tot, 4)}
+    return {"scn": scn, "cfg": cfg, "T": float(T), "n": n, "kind": kind, "times": times, "d": 3 if noise.get("with_leakage") else 2, "case_id": case_id, "noise": noise, "delivery": delivery}
 
 
 def run_chunk(case: dict, tier: str, seeds: tuple, k: int, want_model: bool) -> dict:
@@ -162,8 +170,8 @@ def run_chunk(case: dict, tier: str, seeds: tuple, k: int, want_model: bool) -> 
         world.clock.policy = lambda n: 0.002
         out = M.run_incarnation(world, M.mps_run_fn(seq, case["scn"], cfg, autosave_dt=None), seeds=seeds, setup=setup)
         V: list[dict] = []
-        desc = {"case": case["case_id"], "kind": case["kind"], "atoms": case["n"], "noise": case["cfg"]["noise"], "T": case["T"], "dt": case["cfg"]["dt"], "drive": case["scn"]["ops"][0], "times": case["times"]}
-        spam = bool(case["cfg"]["noise"].get("state_prep_error"))
+        desc = {"case": case["case_id"], "kind": case["kind"], "atoms": case["n"], "noise": case["noise"], "delivery": case["delivery"], "T": case["T"], "dt": case["cfg"]["dt"], "drive": case["scn"]["ops"][0], "times": case["times"]}
+        spam = bool(case["noise"].get("state_prep_error"))
         if out.error is not None and spam and "mps.py:make" in (out.error_site or ""):
             # emu-mps refuses a trajectory with fewer than two well-prepared atoms (C25's subject): chunk skipped
             return {"violations": [], "sums": None, "desc": desc, "n": 0, "jumps": 0, "digest": world.log.digest(), "skipped": "fewer-than-two-well-prepared-atoms"}
@@ -198,7 +206,7 @@ def run_chunk(case: dict, tier: str, seeds: tuple, k: int, want_model: bool) -> 
             sd = captured["data"]
             mod = LB.evolve(
                 np.real(sd.omega.numpy()), np.real(sd.delta.numpy()), np.real(sd.phi.numpy()),
-                lambda t: sd.interaction_matrix(t).numpy(), [float(x) for x in sd.target_times], case["cfg"]["noise"], case["d"], case["times"],
+                lambda t: sd.interaction_matrix(t).numpy(), [float(x) for x in sd.target_times], case["noise"], case["d"], case["times"],
             )
             model = {f"{tag}@{t!r}": np.asarray(val).tolist() for tag, byt in mod.items() for t, val in byt.items()}
         return {
@@ -226,7 +234,9 @@ def run_one(tape: Tape, tier: str, opts: dict) -> dict:
     for v in r["violations"]:
         v["opts_override"] = {"case": str(case_id), "chunk": str(chunk), "seed": str(seed)}
     probes = {"trajectory_with_jump": r["jumps"]}
-    nz = case["cfg"]["noise"]
+    nz = case["noise"]
+    if case["delivery"] != "config":
+        probes["noise_model_from_device"] = 1
     for key, pn in (("relaxation_rate", "relaxation"), ("dephasing_rate", "dephasing"), ("depolarizing_rate", "depolarizing")):
         if nz.get(key):
             probes[pn] = 1
